@@ -99,9 +99,17 @@ for v in variants:
         mp = os.path.join(out, 'meta.json')
         if os.path.exists(mp):
             old = json.load(open(mp))
+        desc = {}
+        dp = os.path.join(HERE, 'seeded', 'descriptions.json')
+        if os.path.exists(dp):
+            desc = json.load(open(dp)).get(meta['seed_id'], {})
         for k in ('breaks', 'needs'):
-            if k in old:
+            if k in desc:
+                meta[k] = desc[k]
+            elif k in old:
                 meta[k] = old[k]
+        if skip_tests and 'tests' in old:
+            meta['tests'] = old['tests']
         json.dump(meta, open(mp, 'w'), indent=1)
         print(pid, v, 'confirmed=%s' % confirmed, 'demo clean/patched exit = %d/%d' % (rc0, rc1),
               'tests lost=%s' % (meta.get('tests', {}).get('lost')),
